@@ -1,4 +1,5 @@
 import SSModel.Options
+import SSModel.Gen.Consts
 /-!
 C13 — extraction options are wscoped to their call tree and thread; stubs honoured.
 Property theorems only.  Model: `SSModel/Options.lean`.
@@ -25,11 +26,13 @@ mutual
         | some _ => simp; exact C13_restore_acts hook c
     | .observe, _ => by simp [evalCall]
     | .raise, _ => by simp [evalCall]
+    | .abort, _ => by simp [evalCall]
+    | .catch body, c => by simp [evalCall]; exact C13_restore_acts body c
   theorem C13_restore_acts : ∀ (h : Acts) (c : Cell), (evalActs h c).cell = c
     | .nil, _ => by simp [evalActs]
     | .cons a rest, c => by
         unfold evalActs
-        by_cases hr : (evalCall a c).raised = true
+        by_cases hr : ((evalCall a c).raised || (evalCall a c).aborted) = true
         · simp [hr]; exact C13_restore_call a c
         · simp [hr]
           rw [C13_restore_call a c]; exact C13_restore_acts rest c
@@ -37,8 +40,10 @@ mutual
     | .nil, _ => by simp [evalHooks]
     | .cons h rest, c => by
         unfold evalHooks
-        simp
-        rw [C13_restore_acts h c]; exact C13_restore_hooks rest c
+        by_cases ha : (evalActs h c).aborted = true
+        · simp [ha]; exact C13_restore_acts h c
+        · simp [ha]
+          rw [C13_restore_acts h c]; exact C13_restore_hooks rest c
 end
 
 /-- Headline form: any top-level call, from any starting cell (in particular the unset one). -/
@@ -91,12 +96,19 @@ mutual
         | some _ => simp only; exact wscoped_acts hook c st k hk
     | .observe, c, st, k, hk => by simp [evalCall, wscoped, hk]
     | .raise, c, st, k, hk => by simpa [evalCall] using hk
+    | .abort, c, st, k, hk => by simpa [evalCall] using hk
+    | .catch body, c, st, k, hk => by
+        simp only [evalCall, List.append_assoc]
+        apply wscoped_acts body c st
+        split
+        · simpa [wscoped] using hk
+        · simpa using hk
   theorem wscoped_acts : ∀ (h : Acts) (c : Cell) (st : List Cell) (k : List Event),
       wscoped k (c :: st) = true → wscoped ((evalActs h c).events ++ k) (c :: st) = true
     | .nil, c, st, k, hk => by simpa [evalActs] using hk
     | .cons a rest, c, st, k, hk => by
         unfold evalActs
-        by_cases hr : (evalCall a c).raised = true
+        by_cases hr : ((evalCall a c).raised || (evalCall a c).aborted) = true
         · simp only [hr, if_true]; exact wscoped_call a c st k hk
         · simp only [hr]
           simp only [Bool.false_eq_true, if_false, List.append_assoc]
@@ -108,10 +120,12 @@ mutual
     | .nil, c, st, k, hk => by simpa [evalHooks] using hk
     | .cons h rest, c, st, k, hk => by
         unfold evalHooks
-        simp only [List.append_assoc]
-        apply wscoped_acts h c st
-        rw [C13_restore_acts h c]
-        exact wscoped_hooks rest c st k hk
+        by_cases ha : (evalActs h c).aborted = true
+        · simp only [ha, if_true]; exact wscoped_acts h c st k hk
+        · simp only [ha, Bool.false_eq_true, if_false, List.append_assoc]
+          apply wscoped_acts h c st
+          rw [C13_restore_acts h c]
+          exact wscoped_hooks rest c st k hk
 end
 
 /-- **C13_observed**: in the event stream of any call tree started from any cell, every observation
@@ -126,7 +140,7 @@ theorem C13_observed (a : Call) (c : Cell) : wscoped (evalCall a c).events [c] =
 
 /-- Outside any extraction `extract_child` refuses to run (and changes nothing). -/
 theorem C13_child_guard (ft : Bool) (hooks : Hooks) :
-    evalCall (.child ft hooks) Cell.unset = ⟨Cell.unset, [.refused], true⟩ := by
+    evalCall (.child ft hooks) Cell.unset = ⟨Cell.unset, [.refused], true, false⟩ := by
   simp [evalCall, Cell.unset]
 
 /-- `extract_child(for_task=True)` is a frameless stub exactly when recursion was not requested,
@@ -136,7 +150,7 @@ theorem C13_stub (wc : Option Bool) (rc : Bool) (hooks : Hooks) :
   cases rc <;> simp [evalCall]
 
 theorem C13_stub_runs_nothing (wc : Option Bool) (hooks : Hooks) :
-    evalCall (.child true hooks) ⟨wc, some false⟩ = ⟨⟨wc, some false⟩, [.stub], false⟩ := by
+    evalCall (.child true hooks) ⟨wc, some false⟩ = ⟨⟨wc, some false⟩, [.stub], false, false⟩ := by
   simp [evalCall]
 
 /-- `for_task=False` always extracts in full inside an extraction. -/
@@ -155,6 +169,41 @@ theorem C13_fill_outside (hook : Acts) :
 theorem C13_fill_inside (hook : Acts) (wc : Bool) (rc : Option Bool) :
     evalCall (.fill hook) ⟨some wc, rc⟩ = evalActs hook ⟨some wc, rc⟩ := by
   simp [evalCall]
+
+/-- What the model takes from the source, re-read on every run: `extract` and `extract_outermost` hand their two
+arguments to `push` unchanged, `fill_context` outside an extraction pushes `(True, False)`, and `push` restores the
+previous options in a `finally` around its `yield` (so also on BaseExceptions). -/
+theorem C13_push_sites :
+    SS.Gen.pushForward = ["extract:recurse_child_tasks=recurse_child_tasks", "extract:with_contexts=with_contexts",
+      "extract_outermost:recurse_child_tasks=recurse_child_tasks", "extract_outermost:with_contexts=with_contexts",
+      "fill_context:recurse_child_tasks=False", "fill_context:with_contexts=True"]
+    ∧ SS.Gen.pushShape = "try-yield-finally-restore" := by decide
+
+/-! #### BaseExceptions: not contained by an extraction, options restored all the same -/
+
+/-- A hook that raises a BaseException ends the extraction it runs under (the remaining hooks do not run), and the
+extraction passes it on — but its `push` has restored the caller's options on the way out. -/
+theorem C13_abort_unwinds (wc rc : Bool) (pre rest : Acts) (hs : Hooks) (c : Cell)
+    (hpre : (evalActs pre ⟨some wc, some rc⟩).raised = false ∧ (evalActs pre ⟨some wc, some rc⟩).aborted = false) :
+    let r := evalCall (.extract wc rc (.cons (Acts.cons (.catch pre) (.cons .abort rest)) hs)) c
+    r.aborted = true ∧ r.raised = false ∧ r.cell = c ∧ r.events.getLast? = some (.leave c) := by
+  have hc := C13_restore_acts pre ⟨some wc, some rc⟩
+  simp [evalCall, evalActs, evalHooks, hpre.1, hpre.2, hc]
+  rw [← List.cons_append, List.getLast?_append]; simp
+
+/-- Whatever the tree, and however it ends — normally, by an exception, or by a BaseException unwinding through any
+number of nested extractions — the caller's options are back (the `finally` of `push`). -/
+theorem C13_restore_also_on_abort (a : Call) (c : Cell) : (evalCall a c).cell = c ∧ wscoped (evalCall a c).events [c] = true :=
+  ⟨C13_restore_call a c, C13_observed a c⟩
+
+/-- The scenario of a too-narrow `except`: a nested extraction is aborted, the hook catches the BaseException and
+looks at the options again — it sees the outer extraction's. -/
+theorem C13_catch_sees_outer (a b a' b' : Bool) (c : Cell) :
+    (evalCall (.extract a b (.cons (.cons (.catch (.cons (.extract a' b' (.cons (.cons .observe (.cons .abort .nil)) .nil)) .nil))
+        (.cons .observe .nil)) .nil)) c).events
+      = [.enter ⟨some a, some b⟩, .enter ⟨some a', some b'⟩, .obs ⟨some a', some b'⟩, .leave ⟨some a, some b⟩, .caught,
+         .obs ⟨some a, some b⟩, .leave c] := by
+  simp [evalCall, evalActs, evalHooks]
 
 /-! #### threads: thread-locality as a frame rule, for any number of threads and any schedule -/
 
